@@ -12,7 +12,8 @@ systems, missing coordinates, random subsets of the 19 coordinate names, mixed d
 * interpreter view (array and `a[0]` record): classes of `a.azimuthal`, `a.longitudinal`, `a.temporal`, their `elements`, and
   the `a.x` / `a.px` … reads of the stored coordinates;
 * compiled view: `numba.njit(lambda a: a[0])(a)` — the boxed object's coordinate classes and values (compiled once per distinct
-  record type; quick: at most 40 distinct types, thorough: all).
+  record type; quick: at most 40 distinct types, thorough / exhaustive: all — thorough samples the two-spelling records, tier
+  `exhaustive` takes every one: 8632 records, 8109 compiled types, about an hour).
 
 The same records go through the Lean driver `Driver/Fields.lean` (`read` = `readRec`, `nb` = `nbReadRecD`) in ONE invocation;
 system names, values and exception kinds are compared.
@@ -110,6 +111,7 @@ def generate(ctx):
     from harness import common as C
     r = C.rng(ctx.seed, "fields")
     full = ctx.tier != "quick"
+    exhaustive = ctx.tier == "exhaustive"               # every two-spelling record (8632 records, 8109 compiled types: about an hour)
     singles = single_name_tuples()
     cases = []
     valid = []                                              # (mom, dim, names) that the flavor can read completely
@@ -138,8 +140,8 @@ def generate(ctx):
             if extra not in names:
                 two.append((mom, dim, names, extra))
     mom_two = [t for t in two if t[0]]
-    if not full:
-        two = r.sample([t for t in two if not t[0]], 60) + r.sample(mom_two, 300)
+    if not exhaustive:
+        two = r.sample([t for t in two if not t[0]], 100 if full else 60) + r.sample(mom_two, 450 if full else 300)
     for mom, dim, names, extra in two:
         f = values(r, names + (extra,))
         if r.random() < 0.5:
@@ -149,14 +151,14 @@ def generate(ctx):
     for mom, dim, names in valid:
         for i in range(len(names)):
             missing.append((mom, dim, names[:i] + names[i + 1:]))
-    if not full:
-        missing = r.sample(missing, 150)
+    if not exhaustive:
+        missing = r.sample(missing, 400 if full else 150)
     for mom, dim, names in missing:
         f = values(r, names)
         if r.random() < 0.3:
             f = with_extras(r, f, EXTRAS, 1)
         cases.append(Case("missing", mom, dim, f))
-    for _ in range(2500 if full else 250):                  # random subsets of the coordinate names
+    for _ in range(2500 if exhaustive else 400 if full else 250):   # random subsets of the coordinate names
         k = r.choice([0, 1, 2, 3, 3, 4, 4, 5, 5, 6, 7, 9, 12])
         names = tuple(r.sample(COORD19, min(k, 19)))
         f = values(r, names)
@@ -165,7 +167,7 @@ def generate(ctx):
         cases.append(Case("subset", r.random() < 0.7, r.choice([2, 3, 4]), f))
     cases.append(Case("subset", True, 4, values(r, tuple(COORD19))))
     cases.append(Case("subset", False, 4, values(r, tuple(COORD19))))
-    for mom, dim, names, extra in r.sample(mom_two, min(len(mom_two), 500 if full else 40)):   # mixed dtypes on doubled coordinates
+    for mom, dim, names, extra in r.sample(mom_two, min(len(mom_two), 500 if exhaustive else 150 if full else 40)):   # mixed dtypes on doubled coordinates
         names = names + (extra,)
         dts = [r.choice(["i", "i", "f"]) for _ in names]
         twins = [i for i, n in enumerate(names[:-1]) if SAME.get(n) == SAME.get(extra)]
